@@ -51,7 +51,9 @@ PidConfig field names, mju_clip, and the mjpPlugin callback slots):
                 engine functions that produce the operands (mju_quat2Vel; mju_subQuat -> mji_quat2Vel for the member
                 the constructor fills), with summaries only for the leaf primitives in _LEAF; affine maps with constant
                 factors and threshold conditionals on one variable are evaluated exactly, anything else is marked
-                inexact.  Bounds that differ and are both exact are a VIOLATION (a rotation angle in between yields a
+                inexact; the difference may sit in a loop (what the loop assigns or hands to a call is unknown at
+                every iteration, the rest keeps its bound); writers of the member are followed through local pointer
+                aliases.  Bounds that differ and are both exact are a VIOLATION (a rotation angle in between yields a
                 non-zero stress in the stress-free configuration); bounds that differ but are inexact, or an operand
                 that cannot be bounded, are ANALYSIS-ERROR.
 The setpoint functions of R-MUSTPASS are found by role (Pid methods that read State.previous_ctrl and return a value); a
@@ -2960,10 +2962,15 @@ class NormInterp:
         if k == "IfStmt":
             return self._if(n, env, rets)
         if k in ("ForStmt", "WhileStmt", "DoStmt", "CXXForRangeStmt", "SwitchStmt"):
-            if self.stop is not None and self.depth == 1 and any(x is self.stop for x in cir.walk(n)):
-                raise AnalysisError("the curvature difference sits inside a loop or switch of its function: the operands' "
-                                    "bounds cannot be evaluated there")
-            # conservative: everything the construct assigns or hands to a call is unknown afterwards
+            inside = self.stop is not None and self.depth == 1 and any(x is self.stop for x in cir.walk(n))
+            if inside and k == "SwitchStmt":
+                raise AnalysisError("the curvature difference sits inside a switch of its function: the operands' bounds "
+                                    "cannot be evaluated there")
+            if inside and k == "ForStmt" and cir.kids(n) and cir.kids(n)[0] is not None:
+                self.stmt(cir.kids(n)[0], env, rets)        # the loop's own declarations
+            # conservative: everything the construct assigns or hands to a call is unknown afterwards (when the
+            # difference sits in the loop: also at the start of every iteration — what the loop leaves alone, e.g. the
+            # operands computed before a per-component loop, keeps its bound)
             for x in cir.walk(n):
                 kk = x.get("k")
                 if (kk == "BinaryOperator" and x.get("op") == "=") or kk == "CompoundAssignOperator" or \
@@ -2982,6 +2989,13 @@ class NormInterp:
                         v = self._vec_of(a, env)
                         if v is not None:
                             v.norm = None
+            if inside:
+                body = cir.kids(n)[0] if k == "DoStmt" else cir.kids(n)[-1]
+                self.branch += 1
+                try:
+                    self.stmt(body, env, [])        # ends with _Stop at the statement that holds the difference
+                finally:
+                    self.branch -= 1
             return False
         if k in ("NullStmt", "BreakStmt", "ContinueStmt"):
             return False
@@ -3104,6 +3118,55 @@ def _ptr_base(n):
     return None
 
 
+_ALIAS_CACHE = {}
+
+
+def _pointer_aliases(fnode):
+    """{decl id of a local pointer variable: what it points into} — ('member', name), a DeclRefExpr node (another
+    variable), None (unknown), or 'conflict' when the variable is re-pointed to something else."""
+    key = id(fnode)
+    if key in _ALIAS_CACHE:
+        return _ALIAS_CACHE[key][1]
+    m = {}
+    for x in cir.walk(fnode):
+        if x.get("k") == "VarDecl" and x.get("id") and "*" in (x.get("t") or ""):
+            init = [c for c in cir.kids(x) if c is not None and not (c.get("k") or "").endswith("Attr")]
+            m[x["id"]] = _ptr_base(init[-1]) if init else None
+    for x in cir.walk(fnode):
+        if x.get("k") == "BinaryOperator" and x.get("op") == "=":
+            l = cir.strip(cir.kids(x)[0])
+            if l is not None and l.get("k") == "DeclRefExpr" and (l.get("ref") or {}).get("id") in m:
+                vid = l["ref"]["id"]
+                b = _ptr_base(cir.kids(x)[1])
+                same = (b == m[vid]) if isinstance(b, tuple) or isinstance(m[vid], tuple) else \
+                    (b is not None and m[vid] is not None and not isinstance(m[vid], str) and
+                     (b.get("ref") or {}).get("id") == (m[vid].get("ref") or {}).get("id"))
+                if m[vid] is None and not any(True for _ in ()):
+                    m[vid] = b if b is not None else "conflict"
+                elif not same:
+                    m[vid] = "conflict"
+    _ALIAS_CACHE[key] = (fnode, m)
+    return m
+
+
+def _resolved_base(expr, fnode):
+    """_ptr_base with local pointer aliases followed: ('member', name), a DeclRefExpr (array / parameter / pointer of
+    unknown target) or None."""
+    b = _ptr_base(expr)
+    al = _pointer_aliases(fnode)
+    for _ in range(6):
+        if b is None or isinstance(b, tuple):
+            return b
+        vid = (b.get("ref") or {}).get("id")
+        if vid not in al:
+            return b
+        nb = al[vid]
+        if nb is None or nb == "conflict":
+            return None
+        b = nb
+    return None
+
+
 def bounds_rule(res, cable, repo):
     res.rule("R-BOUNDS-AGREE", "cable: in every difference of two vector elements of which one is a bounded rotation "
              "vector (the curvature omega and the stored reference curvature omega0), both operands have the same least "
@@ -3138,7 +3201,7 @@ def bounds_rule(res, cable, repo):
                     ce = cir.callee_expr(x)
                     # methods of the container itself: (re)sizing with zeros is neutral, anything else is unknown
                     if x.get("k") == "CXXMemberCallExpr" and ce is not None and ce.get("k") == "MemberExpr" and \
-                            cir.kids(ce) and _ptr_base(cir.kids(ce)[0]) == ("member", name):
+                            cir.kids(ce) and _resolved_base(cir.kids(ce)[0], f.node) == ("member", name):
                         m = ce.get("n")
                         if m in ("assign", "resize"):
                             a = cir.args(x)
@@ -3157,7 +3220,14 @@ def bounds_rule(res, cable, repo):
                     pts = modref._param_types((ce.get("ref") or {}).get("t") if ce is not None and
                                               ce.get("k") == "DeclRefExpr" else None)
                     for i, a in enumerate(cir.args(x)):
-                        if _ptr_base(a) != ("member", name) or "*" not in (cir.strip(a).get("t") or "*"):
+                        rb = _resolved_base(a, f.node)
+                        if rb is None and re.fullmatch(r"(mjtNum|double) ?\*", ((cir.strip(a) or {}).get("t") or "")) and \
+                                not (i < len(pts) and modref._const_pointee(pts[i])) and _ptr_base(a) is not None:
+                            # a pointer of unknown target handed to a writer: it may point into the member
+                            writers += 1
+                            unknown = True
+                            continue
+                        if rb != ("member", name) or "*" not in (cir.strip(a).get("t") or "*"):
                             continue
                         if i < len(pts) and modref._const_pointee(pts[i]):
                             continue
@@ -3180,7 +3250,7 @@ def bounds_rule(res, cable, repo):
                 elif (x.get("k") == "BinaryOperator" and x.get("op") == "=") or x.get("k") == "CompoundAssignOperator":
                     l = cir.strip(cir.kids(x)[0])
                     if l is not None and l.get("k") in ("ArraySubscriptExpr", "CXXOperatorCallExpr", "UnaryOperator") and \
-                            _ptr_base(l) == ("member", name):
+                            _resolved_base(l, f.node) == ("member", name):
                         writers += 1
                         unknown = True
         if writers and not unknown and norms:
@@ -3198,7 +3268,7 @@ def bounds_rule(res, cable, repo):
             a = cir.args(call)
             if idx >= len(a):
                 return None
-            b = _ptr_base(a[idx])
+            b = _resolved_base(a[idx], caller.node)
             if isinstance(b, tuple):
                 got.add(b[1])
             elif b is not None and (b.get("ref") or {}).get("k") == "ParmVarDecl" and (caller.key, idx) not in seen:
@@ -3562,6 +3632,30 @@ MUTANTS += [
                 "        dyntype == mjDYN_INTEGRATOR) {\n      expected_actnum++;\n    }\n")]},
     {"id": "create-native-slot-for-every-dyntype", "group": "O", "expect": ("R-TABLE", "pid:setpoint-slot:mjDYN_PID"),
      "edits": [(PID_TU, _CREATE_NATIVE, "    if (dyntype != mjDYN_NONE) {\n      expected_actnum++;\n    }\n")]},
+]
+
+
+# ---- the difference inside a per-component loop, the reference curvature filled through a local pointer (F-p10 shapes)
+_TMP_INIT = ("  mjtNum tmp[] = {\n      - stiffness[0]*(omega[0] - omega0[0]) / stiffness[3],\n"
+             "      - stiffness[1]*(omega[1] - omega0[1]) / stiffness[3],\n"
+             "      - stiffness[2]*(omega[2] - omega0[2]) / stiffness[3],\n  };\n")
+_TMP_LOOP = ("  mjtNum tmp[3];\n  for (int k = 0; k < 3; k++) {\n"
+             "    tmp[k] = - stiffness[k]*(omega[k] - omega0[k]) / stiffness[3];\n  }\n")
+_OMEGA0_FILL = ("      int qadr = m->jnt_qposadr[m->body_jntadr[i]] + m->body_dofnum[i]-3;\n"
+                "      mju_subQuat(omega0.data()+3*b, m->body_quat+4*i, d->qpos+qadr);\n"
+                "    } else {\n      mju_zero3(omega0.data()+3*b);\n    }\n")
+_OMEGA0_FILL_PTR = ("      int qadr = m->jnt_qposadr[m->body_jntadr[i]] + m->body_dofnum[i]-3;\n"
+                    "      mjtNum* omega0_b = omega0.data()+3*b;\n"
+                    "      mju_subQuat(omega0_b, m->body_quat+4*i, d->qpos+qadr);\n"
+                    "    } else {\n      mjtNum* omega0_b = omega0.data()+3*b;\n      mju_zero3(omega0_b);\n    }\n")
+MUTANTS += [
+    {"id": "cable-difference-in-component-loop", "group": "J", "expect": None,
+     "edits": [(CABLE_TU, _TMP_INIT, _TMP_LOOP), (CABLE_TU, _OMEGA0_FILL, _OMEGA0_FILL_PTR)]},
+    {"id": "cable-curvature-unwrapped-difference-in-loop", "group": "N", "expect": ("R-BOUNDS-AGREE", "LocalStress:difference"),
+     "edits": [(CABLE_TU, _TMP_INIT, _TMP_LOOP), (CABLE_TU, _OMEGA0_FILL, _OMEGA0_FILL_PTR),
+               (CABLE_TU, _QUAT2VEL,
+                "  mjtNum omega[3] = {quat[1], quat[2], quat[3]};\n  mjtNum sin_a_2 = mju_normalize3(omega);\n"
+                "  mju_scl3(omega, omega, 2 * mju_atan2(sin_a_2, quat[0]));\n")]},
 ]
 
 
